@@ -216,6 +216,8 @@ type streamCase struct {
 	Direct bool `json:"direct,omitempty"`
 	// bytes the same handler processed as a stream before the direct call
 	Prior string `json:"stream_processed_before,omitempty"`
+	// bytes that lie behind the input in the same backing array (its spare capacity)
+	Spare string `json:"spare_capacity_holds,omitempty"`
 	// expectation (C03/C12)
 	Expect []expSeg `json:"expect,omitempty"`
 	// C12: the uncorrupted stream and the delivery index of the victim
@@ -295,6 +297,11 @@ func execC01Stream(c *child.Ctx, k streamCase, cj []byte) {
 
 func execC01Direct(c *child.Ctx, k streamCase, cj []byte) {
 	input := unhex(k.Input)
+	if k.Spare != "" {
+		whole := append(append([]byte(nil), input...), unhex(k.Spare)...)
+		input = whole[:len(input)]
+		c.Count("direct_with_spare_capacity", 1)
+	}
 	h := handler.New(fixedStart, slog.LevelInfo)
 	if k.Prior != "" {
 		// the handler has processed a stream before
@@ -575,6 +582,24 @@ func monC01(c *child.Ctx, replay json.RawMessage) {
 			}
 			b, note := candidateFrom(r, base, kind)
 			k := streamCase{Input: hexs(b), Direct: true, Note: note + ", on a handler that processed a stream before", Prior: hexs(prior)}
+			cj := c.BeginV(k)
+			execC01Direct(c, k, cj)
+		}
+	}
+	// the first bytes of a frame handed over as a slice whose spare capacity still holds
+	// the rest of the frame (buf[:n] of a read buffer): every length 1..12 and a few more
+	nSpare := c.Share(c.Pick(1600, 40000))
+	for i := 0; i < nSpare; i++ {
+		f := gen.RandFrame(r)
+		for !gen.SafeMSMPayload(f.Type, len(f.Bytes)-6) || len(f.Bytes) > 300 {
+			f = gen.RandFrame(r)
+		}
+		cuts := []int{1, 2, 3, 4, 5, 6, 7, 8, 9, 10, 11, 12, len(f.Bytes) - 4, len(f.Bytes) - 3, len(f.Bytes) - 1}
+		for _, cut := range cuts {
+			if cut < 1 || cut >= len(f.Bytes) {
+				continue
+			}
+			k := streamCase{Input: hexs(f.Bytes[:cut]), Direct: true, Spare: hexs(f.Bytes[cut:]), Note: fmt.Sprintf("the first %d bytes of a %d-byte frame; the spare capacity of the slice holds the rest", cut, len(f.Bytes))}
 			cj := c.BeginV(k)
 			execC01Direct(c, k, cj)
 		}
